@@ -354,6 +354,11 @@ def nextIrreducible (p : Nat) (fuel : Nat) (a : Poly) : Option Poly := nextIrrLo
 /-- ≙ finfields.py:502 `find_irreducible(p, d)` = `GFpX(p).next_irreducible(p**d - 1)` (odd p) -/
 def findIrreducible (p d fuel : Nat) : Option Poly := nextIrreducible p fuel (fromInt p ((p ^ d - 1 : Nat) : Int))
 
+/-- ≙ finfields.py:509 `xGF(modulus)`: `ValueError` unless `is_irreducible(modulus)`, otherwise the field
+parameters `(order, ext_deg) = (p^d, d)` with `d = modulus.degree()` -/
+def xGF (p : Nat) (m : Poly) : Except Err (Nat × Nat) :=
+  if isIrreducible p m then .ok (p ^ (m.length - 1), m.length - 1) else .error .value
+
 /-! ### order, evaluation, printing -/
 
 /-- scan from the top for the first differing coefficient ≙ loop gfpx.py:515-518 on equal lengths;
